@@ -510,6 +510,7 @@ pub fn run(tier: Tier) -> i32 {
         }
     }
     rep.set("rule", json!(format!("(strings) all sequences of <= {k} atoms from {} text atoms (letters, blank, & < > \" ' as entities/raw, e-acute, emoji, escaped \\n, real newline, \\\\n, ${{v}}, {{{{1+1}}}}, &amp;amp;) x 5 carriers (text attribute, element content, CDATA content, <text> attribute, <text> content) x 3 placements (default; tl + d-text-pre; vertical outside): the unescaped character data of the generated <text>/<tspan>s must equal the author's text after substitution, one <tspan> per line (reversed for vertical text; zero-width space for empty lines, NBSP for pre-formatted blanks; white space before a line break not compared). (placement) 8 shapes x 13 text-loc values (9 locations + 4 edge offsets) x {{default, d-text-inside, d-text-outside}} x {{horizontal, vertical}} x text-offset {{-, 0, 3}} x text-dx/dy/dxy forms x 1/2/3-line texts{}: anchor = text-loc point of the shape's box moved inward/outward by the offset plus dx/dy; alignment classes per the rule table; text classes moved, shape-only classes not; line spacing; no text attribute left; shape element identical to the same document without text.", ATOMS.len(), if tier == Tier::Thorough { " x text-lsp" } else { "" })));
+    rep.set("also_later", json!("Rounds 3-5 added scenarios: white space between CDATA pieces, shape text next to a child element, reuse of templates whose text is content or carried by a group parameter, a default text-dx against the element's own text-dxy."));
     rep.set("also", json!("Also carriers: text attribute on an element with an explicit end tag / with a line break as content, content interrupted by a comment, content made of a text piece followed by CDATA, <box> and <point> content; atoms: escaped dollar, '}}' alone, '{{' never closed. Scenarios (second review round; expected character data, anchor, classes, style): adjacent text / CDATA pieces before and after child elements, processing instructions inside content, <defaults> with the text as content / attribute / on <text>, shapes under matrix / rotate / translate transforms, <text> with child elements positioned by xy, text on <use> (attribute and content), <reuse> of a <text> with x / y, text-style next to style."));
     let st = run_space(scases.len(), |i| check_string(&scases[i].0, scases[i].1, scases[i].2));
     rep.sample(json!({"leg": "strings", "atoms": scases[scases.len() / 2].0.iter().map(|a| ATOMS[*a].name).collect::<Vec<_>>(), "carrier": format!("{:?}", scases[scases.len() / 2].1)}));
